@@ -447,7 +447,7 @@ def evaluate(roots, env: dict, uf_impl=None, radicals=None):
 # --------------------------------------------------------------------------
 
 _POLYVARS: dict = {}  # T.id of opaque node -> T
-POLY_LIMIT = 20000
+POLY_LIMIT = 100000
 
 
 class Poly:
